@@ -37,6 +37,7 @@ import numpy as np
 
 from bounded.common import parse_args, Report, quiet
 from specs.interacting_spec import Spec, UNDEF, great_circle
+from specs.interacting_block_spec import BlockSpec
 
 PROP = "C11"
 RTOL = 1e-9      # every kernel / helper involved works in float64
@@ -199,8 +200,9 @@ def check_nsi_capl(col, net, sp, P, Q, wit):
                  c(net.nsi_cross_average_path_length, Q, P), what="(P,Q) vs (Q,P):")
 
 
-def check_cross_nsi(col, net, sp, P, Q, wit):
-    """n.s.i. two-list methods (undirected networks)."""
+def check_cross_nsi(col, net, sp, P, Q, wit, capl=True):
+    """n.s.i. two-list methods (undirected networks).  capl=False: evaluate the n.s.i. cross
+    average path length only for W_P == W_Q (where known finding #19 cannot show)."""
     c = col.call
     col.expect("nsi_cross_degree/definition", wit, c(net.nsi_cross_degree, P, Q), sp.nsi_cross_degree(P, Q))
     col.expect("nsi_cross_mean_degree/definition", wit, c(net.nsi_cross_mean_degree, P, Q),
@@ -219,11 +221,30 @@ def check_cross_nsi(col, net, sp, P, Q, wit):
     col.same("nsi_cross_edge_density/arg-symmetry", wit, r, c(net.nsi_cross_edge_density, Q, P))
     col.expect("nsi_cross_transitivity/definition", wit, c(net.nsi_cross_transitivity, P, Q),
                sp.nsi_cross_transitivity(P, Q))
-    check_nsi_capl(col, net, sp, P, Q, wit)
+    if capl or sum(sp.w[p] for p in P) == sum(sp.w[q] for q in Q):
+        check_nsi_capl(col, net, sp, P, Q, wit)
 
 
-def check_cross(col, net, sp, P, Q, wit, nsi_only=False):
-    """All two-list methods for the ordered pair (P, Q)."""
+def check_clustering(col, net, sp, P, Q, wit, sparse=True, only=None):
+    """Cross clustering / transitivity: compiled method and (sparse=True) its pure-Python
+    `_sparse` twin against the definition, and twin agreement.  `only` restricts to one of
+    "cross_local_clustering", "cross_global_clustering", "cross_transitivity"."""
+    c = col.call
+    for meth in ("cross_local_clustering", "cross_global_clustering", "cross_transitivity"):
+        if only is not None and meth != only:
+            continue
+        exp = getattr(sp, meth)(P, Q)
+        r = c(getattr(net, meth), P, Q)
+        col.expect(meth + "/definition", wit, r, exp)
+        if sparse:
+            rs = c(getattr(net, meth + "_sparse"), P, Q)
+            col.expect(meth + "_sparse/definition", wit, rs, exp)
+            col.same(meth + "/sparse-twin", wit, r, rs)
+
+
+def check_cross(col, net, sp, P, Q, wit, nsi_only=False, sparse=True, capl=True):
+    """All two-list methods for the ordered pair (P, Q).  sparse=False leaves out the
+    pure-Python `_sparse` clustering twins (O(|P| |Q|^2) sparse-matrix look-ups)."""
     P, Q = list(P), list(Q)
     directed = sp.directed
     has_L = sp.L is not None
@@ -231,7 +252,7 @@ def check_cross(col, net, sp, P, Q, wit, nsi_only=False):
     T = (lambda m: np.asarray(m).T)
 
     if not directed:
-        check_cross_nsi(col, net, sp, P, Q, wit)
+        check_cross_nsi(col, net, sp, P, Q, wit, capl)
     if nsi_only:
         return
 
@@ -306,21 +327,7 @@ def check_cross(col, net, sp, P, Q, wit, nsi_only=False):
     col.expect("cross_link_density/definition", wit, r, sp.cross_link_density(P, Q))
     col.same("cross_link_density/arg-symmetry", wit, r, c(net.cross_link_density, Q, P))
 
-    r = c(net.cross_local_clustering, P, Q)
-    col.expect("cross_local_clustering/definition", wit, r, sp.cross_local_clustering(P, Q))
-    rs = c(net.cross_local_clustering_sparse, P, Q)
-    col.expect("cross_local_clustering_sparse/definition", wit, rs, sp.cross_local_clustering(P, Q))
-    col.same("cross_local_clustering/sparse-twin", wit, r, rs)
-    r = c(net.cross_global_clustering, P, Q)
-    col.expect("cross_global_clustering/definition", wit, r, sp.cross_global_clustering(P, Q))
-    rs = c(net.cross_global_clustering_sparse, P, Q)
-    col.expect("cross_global_clustering_sparse/definition", wit, rs, sp.cross_global_clustering(P, Q))
-    col.same("cross_global_clustering/sparse-twin", wit, r, rs)
-    r = c(net.cross_transitivity, P, Q)
-    col.expect("cross_transitivity/definition", wit, r, sp.cross_transitivity(P, Q))
-    rs = c(net.cross_transitivity_sparse, P, Q)
-    col.expect("cross_transitivity_sparse/definition", wit, rs, sp.cross_transitivity(P, Q))
-    col.same("cross_transitivity/sparse-twin", wit, r, rs)
+    check_clustering(col, net, sp, P, Q, wit, sparse)
 
     r = c(net.cross_betweenness, P, Q)
     col.expect("cross_betweenness/definition", wit, r, sp.cross_betweenness(P, Q))
